@@ -17,7 +17,11 @@ import (
 // runes without a simple lower-case counterpart that still fold (U+0131,
 // final sigma), a title-case letter, and U+FFFD, which is also what the
 // runtime reads for a byte that is not UTF-8.
-var special = []rune{0x23a, 0x2c65, 0x130, 0x131, 'K', 'k', 0x212a, 0xfffd, 0xdf, 0x1e9e, 'I', 'i', 0x1c5, 0x3a3, 0x3c3, 0x3c2, 'S', 0x17f}
+var special = []rune{0x23a, 0x2c65, 0x130, 0x131, 'K', 'k', 0x212a, 0xfffd, 0xdf, 0x1e9e, 'I', 'i', 0x1c5, 0x3a3, 0x3c3, 0x3c2, 'S', 0x17f,
+	0x2167, 0x2177, 0x24b6, 0x24d0, 0x345} // the last five are not letters but have case mappings
+
+// caseless-looking company for a special rune in a literal that consists of nothing else
+const uncased = "0123456789+-_<>. "
 
 var specialRanges = [][2]rune{{0x23a, 0x2c65}, {'K', 0x212a}, {'I', 0x131}, {0xdf, 0x1e9e}, {'A', 'z'}, {0x3a3, 0x3c3}, {'k', 0x17f}}
 
@@ -96,6 +100,23 @@ func spice(r *rand.Rand, g *ast.Grammar) (planted int) {
 				}
 				rs := []rune(e.Val)
 				c := special[r.Intn(len(special))]
+				if r.Intn(3) == 0 {
+					// the WHOLE literal: a special rune alone or among characters without case (a literal whose
+					// every rune is its own upper and lower case still has to fold the INPUT when it carries i)
+					rs = []rune{c}
+					for k := r.Intn(3); k > 0; k-- {
+						u := rune(uncased[r.Intn(len(uncased))])
+						if r.Intn(2) == 0 {
+							rs = append(rs, u)
+						} else {
+							rs = append([]rune{u}, rs...)
+						}
+					}
+					e.Val = string(rs)
+					e.IgnoreCase = r.Intn(3) != 0
+					planted++
+					return
+				}
 				i := r.Intn(len(rs))
 				if r.Intn(2) == 0 {
 					rs[i] = c
